@@ -149,6 +149,61 @@ fn structural_cases() -> Vec<(String, Vec<u8>)> {
     ]
 }
 
+/// encodings whose very decoding depends on the feature set (the reader must run under the configured features, not only the validator),
+/// and declarations that declare nothing but still name a type (a locals group of count 0): one memory, one table, one function whose
+/// body is given byte by byte
+fn encoding_cases() -> Vec<(String, Vec<u8>)> {
+    fn leb(mut n: u32, out: &mut Vec<u8>) { loop { let b = (n & 0x7f) as u8; n >>= 7; if n == 0 { out.push(b); break } else { out.push(b | 0x80) } } }
+    fn sec(id: u8, payload: &[u8]) -> Vec<u8> { let mut v = vec![id]; leb(payload.len() as u32, &mut v); v.extend_from_slice(payload); v }
+    let header: Vec<u8> = vec![0x00, 0x61, 0x73, 0x6d, 0x01, 0x00, 0x00, 0x00];
+    let module = |mem: &[u8], locals: &[u8], code: &[u8], with_data: bool| -> Vec<u8> {
+        let mut m = header.clone();
+        m.extend(sec(1, &[0x01, 0x60, 0x00, 0x00]));
+        m.extend(sec(3, &[0x01, 0x00]));
+        m.extend(sec(4, &[0x01, 0x70, 0x00, 0x01]));
+        let mut ms = vec![0x01]; ms.extend_from_slice(mem); m.extend(sec(5, &ms));
+        if with_data { m.extend(sec(12, &[0x01])); }
+        let mut body: Vec<u8> = locals.to_vec(); body.extend_from_slice(code);
+        let mut c = vec![0x01]; leb(body.len() as u32, &mut c); c.extend(body); m.extend(sec(10, &c));
+        if with_data { m.extend(sec(11, &[0x01, 0x01, 0x01, 0x2a])); }
+        m
+    };
+    let plain_mem: &[u8] = &[0x00, 0x01];
+    let no_locals: &[u8] = &[0x00];
+    let mut v: Vec<(String, Vec<u8>)> = vec![];
+    let mut add = |n: &str, b: Vec<u8>| v.push((n.to_string(), b));
+    // memory immediates in their multi-memory encoding although they name memory 0
+    add("i32.load with the memory-index bit set in its alignment, memory 0", module(plain_mem, no_locals, &[0x41, 0x00, 0x28, 0x42, 0x00, 0x00, 0x1a, 0x0b], false));
+    add("i32.store with the memory-index bit set, memory 0", module(plain_mem, no_locals, &[0x41, 0x00, 0x41, 0x00, 0x36, 0x42, 0x00, 0x00, 0x0b], false));
+    add("i32.load with a plain alignment (control: valid)", module(plain_mem, no_locals, &[0x41, 0x00, 0x28, 0x02, 0x00, 0x1a, 0x0b], false));
+    add("memory.size with an over-long zero index", module(plain_mem, no_locals, &[0x3f, 0x80, 0x00, 0x1a, 0x0b], false));
+    add("memory.grow with an over-long zero index", module(plain_mem, no_locals, &[0x41, 0x00, 0x40, 0x80, 0x00, 0x1a, 0x0b], false));
+    add("memory.size with a one-byte zero index (control: valid)", module(plain_mem, no_locals, &[0x3f, 0x00, 0x1a, 0x0b], false));
+    add("memory.copy with an over-long destination index", module(plain_mem, no_locals, &[0x41, 0x00, 0x41, 0x00, 0x41, 0x00, 0xfc, 0x0a, 0x80, 0x00, 0x00, 0x0b], false));
+    add("memory.copy with an over-long source index", module(plain_mem, no_locals, &[0x41, 0x00, 0x41, 0x00, 0x41, 0x00, 0xfc, 0x0a, 0x00, 0x80, 0x00, 0x0b], false));
+    add("memory.fill with an over-long index", module(plain_mem, no_locals, &[0x41, 0x00, 0x41, 0x00, 0x41, 0x00, 0xfc, 0x0b, 0x80, 0x00, 0x0b], false));
+    add("memory.init with an over-long memory index", module(plain_mem, no_locals, &[0x41, 0x00, 0x41, 0x00, 0x41, 0x00, 0xfc, 0x08, 0x00, 0x80, 0x00, 0x0b], true));
+    add("memory.init with one-byte indices (control: valid)", module(plain_mem, no_locals, &[0x41, 0x00, 0x41, 0x00, 0x41, 0x00, 0xfc, 0x08, 0x00, 0x00, 0x0b], true));
+    add("call_indirect with an over-long table index", module(plain_mem, no_locals, &[0x41, 0x00, 0x11, 0x00, 0x80, 0x00, 0x0b], false));
+    // limits flags of proposals
+    add("memory limits with the 64-bit flag", module(&[0x04, 0x01], no_locals, &[0x0b], false));
+    add("memory limits with the shared flag and a maximum", module(&[0x03, 0x01, 0x01], no_locals, &[0x0b], false));
+    add("memory limits with the shared flag and no maximum", module(&[0x02, 0x01], no_locals, &[0x0b], false));
+    add("memory limits with the custom-page-size flag", module(&[0x08, 0x01, 0x00], no_locals, &[0x0b], false));
+    add("memory limits with an unknown flag", module(&[0x10, 0x01], no_locals, &[0x0b], false));
+    // locals groups that declare nothing (count 0) but name a type: the type is checked all the same
+    for (n, ty) in [("i32", vec![0x7fu8]), ("v128", vec![0x7b]), ("funcref", vec![0x70]), ("externref", vec![0x6f]), ("exnref", vec![0x69]), ("anyref", vec![0x6e]), ("eqref", vec![0x6d]),
+                    ("i31ref", vec![0x6c]), ("(ref null 0)", vec![0x63, 0x00]), ("(ref func)", vec![0x64, 0x70]), ("(ref null func)", vec![0x63, 0x70]), ("an undefined type byte", vec![0x50]), ("the empty block type byte", vec![0x40])] {
+        for count in [0u8, 1] {
+            let mut locals = vec![0x01, count]; locals.extend_from_slice(&ty);
+            add(&format!("locals group: {count} x {n}"), module(plain_mem, &locals, &[0x0b], false));
+        }
+        let mut locals = vec![0x02, 0x01, 0x7f, 0x00]; locals.extend_from_slice(&ty);
+        add(&format!("locals groups: 1 x i32, then 0 x {n}"), module(plain_mem, &locals, &[0x0b], false));
+    }
+    v
+}
+
 fn nested(depth: usize) -> Vec<u8> {
     use wasm_encoder::*;
     let mut m = Module::new();
@@ -207,6 +262,7 @@ pub fn gate(args: &[String]) -> Result<JValue> {
     for (name, bytes) in data_count_cases() { judge("hand-built", name, &bytes, &mut failures); }
     for (name, bytes) in after_end_cases() { judge("hand-built", &name, &bytes, &mut failures); }
     for (name, bytes) in structural_cases() { judge("hand-built", &name, &bytes, &mut failures); }
+    for (name, bytes) in encoding_cases() { judge("hand-built", &name, &bytes, &mut failures); }
     for (name, bytes) in unsupported() {
         for only_stable in [false, true] {
             checked += 1;
